@@ -18,10 +18,11 @@ STATED_REASONS = {'name-missing', 'overrun', 'bad-int-width', 'critical', 'outer
 
 
 class Reject(Exception):
-    def __init__(self, reason, detail=''):
+    def __init__(self, reason, detail='', where='model'):
         super().__init__(f'{reason}: {detail}' if detail else reason)
         self.reason = reason
         self.detail = detail
+        self.where = where     # 'model' (field of a TLV container) | 'name' (component of a Name)
 
 
 # ---------------------------------------------------------------- primitives
@@ -79,11 +80,15 @@ def read_tlv(buf, off, end):
     return t, off, p, p + ln
 
 
-def children(buf, start, end):
+def children(buf, start, end, where='model'):
     out = []
     off = start
     while off < end:
-        t, ts, vs, ve = read_tlv(buf, off, end)
+        try:
+            t, ts, vs, ve = read_tlv(buf, off, end)
+        except Reject as e:
+            e.where = where
+            raise
         out.append((t, ts, vs, ve))
         off = ve
     return out
@@ -159,7 +164,7 @@ T_GENERIC = 8
 def read_name(buf, ts, vs, ve):
     """Components as bytes (full TLV).  Each component must lie inside the Name."""
     comps = []
-    for (t, cts, cvs, cve) in children(buf, vs, ve):
+    for (t, cts, cvs, cve) in children(buf, vs, ve, where='name'):
         comps.append(bytes(buf[cts:cve]))
     return comps
 
